@@ -59,6 +59,17 @@ SCENARIOS = {
 T0 = 1000000.0
 
 
+def scenario(name):
+    """name, name@tcp (the real AsynTcp over a fake socket layer) or name@reset (tcp, the peer resets instead of closing)"""
+    base, _, variant = name.partition('@')
+    sc = dict(SCENARIOS[base])
+    if variant in ('tcp', 'reset'):
+        sc['tcp'] = True
+    if variant == 'reset':
+        sc['reset'] = True
+    return sc
+
+
 def alpha(r, sc):
     """events of one execution -> trace in the vocabulary of ClientObs"""
     tr = []
@@ -119,7 +130,7 @@ def _explore(args):
     name, mode, seed, nruns, line_level = args
     from .. import detsched as ds
     from ..clientworld import run_scenario
-    sc = SCENARIOS[name]
+    sc = scenario(name)
     out = []
     if mode == 'dfs':
         class Run:
@@ -177,19 +188,23 @@ def run(chk):
         envs.append(dict(KeyOf='DiffKey', Streaming='FALSE', CanDrop='TRUE', WithUser='TRUE', MaxUpd=0))
         envs.append(dict(KeyOf='SameKey', Streaming='FALSE', CanDrop='TRUE', WithUser='FALSE', MaxUpd=1))
         envs.append(dict(KeyOf='SameKey', Streaming='TRUE', CanDrop='TRUE', WithUser='TRUE', MaxUpd=1))
+    thunks = []
     for n, env in enumerate(envs):
         one = quick and env['WithUser'] == 'TRUE'       # quick: user disconnect with a single caller
-        chk.add_tlc(model_check('Client', _cfg(f'fixed_{n}' + ('_1c' if one else ''), FIXED, env,
-                                               callers='{"c1"}' if one else '{"c1", "c2"}'),
-                                timeout=1500, heap='12g'))
+        cfg = _cfg(f'fixed_{n}' + ('_1c' if one else ''), FIXED, env, callers='{"c1"}' if one else '{"c1", "c2"}')
+        thunks.append(lambda cfg=cfg: model_check('Client', cfg, timeout=1500, heap='12g'))
     # ... and a peer that may ignore a request produces legitimate time-outs only
-    chk.add_tlc(model_check('Client', _cfg('fixed_ign', FIXED, envs[0] | {'Streaming': 'FALSE'}, ignore='{"c1"}'),
-                            timeout=600))
+    cfg = _cfg('fixed_ign', FIXED, envs[0] | {'Streaming': 'FALSE'}, ignore='{"c1"}')
+    thunks.append(lambda cfg=cfg: model_check('Client', cfg, timeout=600))
     # 2. design: the as-implemented switches break the property (documentation of the findings)
-    asimpl = {}
     for name, sw, inv, env in ASIMPL:
-        r = run_tlc('Client', _cfg('asimpl_' + name, sw, env), timeout=900, heap='8g')
+        cfg = _cfg('asimpl_' + name, sw, env)
+        thunks.append(lambda cfg=cfg: run_tlc('Client', cfg, timeout=900, heap='8g'))
+    results = core.run_parallel(thunks, width=4 if quick else 3)
+    for r in results:
         chk.add_tlc(r)
+    asimpl = {}
+    for (name, sw, inv, env), r in zip(ASIMPL, results[-len(ASIMPL):]):
         asimpl[name] = {'expected_violation': inv, 'tlc': r.violated[1] if r.violated else None,
                         'counterexample_steps': [a.split(' line')[0] for a, _ in r.counterexample()][1:]}
         if not r.violated and not r.ok:
@@ -201,8 +216,15 @@ def run(chk):
     ndfs, nrnd = (250, 150) if quick else (4000, 3000)
     for name in SCENARIOS:
         jobs.append((name, 'dfs', chk.seed, ndfs, False))
+        sc = SCENARIOS[name]
+        lossy = sc.get('drop') or sc.get('user')
         for part in range(2 if quick else 8):
-            jobs.append((name, 'rnd', chk.seed * 31 + part, nrnd // (2 if quick else 8), False))
+            # random schedules alternate between the scripted connection and the real AsynTcp over fake sockets;
+            # where the connection is lost, also with a peer that resets instead of closing
+            variant = '' if part % 2 == 0 else ('@reset' if lossy and part % 4 == 1 else '@tcp')
+            jobs.append((name + variant, 'rnd', chk.seed * 31 + part, nrnd // (2 if quick else 8), False))
+        if lossy:
+            jobs.append((name + '@reset', 'dfs', chk.seed, 80 if quick else 1500, False))
         if not quick:
             jobs.append((name, 'rnd', chk.seed * 17 + 5, 400, True))    # line-level preemption
     results = pool_map(_explore, jobs, chunksize=1)
@@ -228,7 +250,7 @@ def run(chk):
         name, choices = origin[i]
         chk.impl_traces += 1
         pre = sum(1 for a, b in zip(choices, choices[1:]) if a != b)
-        sc = SCENARIOS[name]
+        sc = scenario(name)
         chk.case((name, tuple(choices)), pre > 0 or any(sc.get(k) for k in ('drop', 'user', 'ignore')))
         if v is not None:
             l = v[0]
@@ -250,15 +272,15 @@ def run(chk):
     chk.notes['deviations_needed'] = count
     if traces:
         chk.sample({'scenario': origin[0][0], 'choices': origin[0][1][:30], 'trace': traces[0][:12]})
-    chk.notes['scenarios'] = {n: sum(1 for o in origin if o[0] == n) for n in SCENARIOS}
+    chk.notes['scenarios'] = {n: sum(1 for o in origin if o[0] == n) for n in sorted({o[0] for o in origin})}
 
 
 def replay(chk, rep):
     from .. import detsched as ds
     from ..clientworld import run_scenario
     d = rep['detail']
-    r = run_scenario(SCENARIOS[d['scenario']], ds.GuidedStrategy(d['choices']))
-    for e in alpha(r, SCENARIOS[d['scenario']]):
+    r = run_scenario(scenario(d['scenario']), ds.GuidedStrategy(d['choices']))
+    for e in alpha(r, scenario(d['scenario'])):
         print(e)
     print('thread exceptions:', r['thread_exc'], 'left:', r['left'])
     return 0
